@@ -6,5 +6,5 @@ D=$(mktemp -d /var/tmp/verif-mut-XXXXXX)
 trap 'rm -rf "$D"' EXIT
 rsync -a --exclude _build --exclude .git /repo/ "$D/"
 ( cd "$D" && patch -p1 -s < "$P" )
-cd /verif
+cd "$(dirname "$(readlink -f "$0")")/.."
 for c in "$@"; do VERIF_REPO="$D" VERIF_CACHE_DIR="$D/.verif-cache" ./check "$c" | grep -v "^  [A-Z][0-9]* \|^    " ; echo "exit=${PIPESTATUS[0]}"; done
